@@ -38,7 +38,8 @@ META = {
                    "calendar input, dominance of the on-shift fact over every positive answer, agreement of the five "
                    "interval constructors on single-date widening, and order tables of each interval comparison."
                    " Also: memo-key soundness of everything reachable from the calendar decision, the fact that a blocking marker is never offered, the evening/next-morning split of cross-midnight shifts, exhaustive unit conversion of blocking bookings, shift leaves reaching model and decision, and whether project-level working hours are consulted (known finding F46)."
-                   " Round 3: leave loops are half-open in slots (affine bounds), a day range is decided per ordering of its two ends (wrap-around), single-slot and invalidation forms of the memo rule.",
+                   " Round 3: leave loops are half-open in slots (affine bounds), a day range is decided per ordering of its two ends (wrap-around), single-slot and invalidation forms of the memo rule."
+                   " Round 4: UTC to local time goes through astimezone / fromutc on the tagged instant; clamp forms of the leave loops; on-shift facts may come from the slot table's markers.",
     "assumptions": ["the default calendar is Mon-Fri 09:00-17:00 (property anchor: project.py:_isDefaultWorkingTime)"],
 }
 
